@@ -31,6 +31,7 @@ MODULES = [
     "split",
     "orderbook",
     "scaled",
+    "roles",
 ]
 
 
